@@ -77,6 +77,13 @@ func (R *Repository) AddCRL(crlLocations *core.CRLLocations, chains *core.Certif
 
 	entry.entryLock.Lock()
 	defer entry.entryLock.Unlock()
+	if crlAdded {
+		//remember where the crl comes from, otherwise an entry which is loaded in background could never be updated
+		err := entry.CRLStore.UpdateCRLLocations(crlLocations)
+		if err != nil {
+			return crlAdded, err
+		}
+	}
 	if entry.LastUpdateSignatureVerifyFailed {
 		//check if the chain contains a new valid signing cert
 		R.tryUpdateSignatureCertFromChain(entry, chains)
